@@ -568,6 +568,8 @@ func (e *Exec) bytesOfLiteral(st *State, s string) Value {
 	}
 	st.Mem[reg] = map[string]T{"": arr}
 	e.allRegs[reg.Name] = reg
+	e.litOfRegion[reg] = s
+	e.freshRegs[reg] = true
 	n := i64(int64(len(s)))
 	return VSlice{Nil: False, Reg: reg, Base: i64(0), Len: n, Cap: n, Elem: types.Typ[types.Uint8]}
 }
